@@ -12,7 +12,7 @@ import (
 
 var (
 	plainStrs = []string{"svc", "req", "a", "b", "latency", "x1", "A_b-c"}
-	delimStrs = []string{"a,b", "a=b", "a+b", "1,b=2", "+", ",", "=", "x+y=z,w"}
+	delimStrs = []string{"a,b", "a=b", "a+b", "1,b=2", "+", ",", "=", "x+y=z,w", "a\\", "\\", "x\\,b", "%", "a\\\\"}
 	oddStrs   = []string{"", "é", "日本語", "🙂x", "\xff", "a\xc0b", "\xf0\x9f", "a b", "A-Z_9.z", ".", "�", "z{", "`a", "/9:"}
 )
 
@@ -135,6 +135,44 @@ func collectScopes(ops []*OpRec) []scopeIdent {
 		out = append(out, scopeIdent{sv: sv, rec: r, id: idKey(sv.model.Prefix, sv.model.Tags), doc: documentedKey(sv.model.Prefix, sv.model.Tags)})
 	}
 	return out
+}
+
+// derivation is one way to arrive at a scope: an optional SubScope, then an
+// optional Tagged.
+type derivation struct {
+	sub  string
+	tags map[string]string
+}
+
+// escapeTwins returns pairs of different identities built around an escape
+// character: whatever character an implementation uses to keep delimiters
+// inside components apart from real delimiters must itself be told apart, or
+// "x<esc>" followed by a real delimiter reads like "x" followed by an escaped
+// one. Nothing here depends on which character (if any) the implementation uses.
+func escapeTwins(g *Gen, pfx, k1, v1, k2, v2 string) [][2]derivation {
+	esc := pick(g, "\\", "\\", "%", "\\\\")
+	ka, kb := k1, k2
+	if ka > kb+esc {
+		ka, kb = k2, k1
+	}
+	return [][2]derivation{
+		{{sub: pfx, tags: map[string]string{ka: v1 + esc, kb + esc: v2}}, {sub: pfx, tags: map[string]string{ka: v1 + "," + kb + "=" + v2}}},
+		{{sub: pfx + esc, tags: map[string]string{k1: v1}}, {sub: "", tags: map[string]string{pfx + "+" + k1: v1}}},
+	}
+}
+
+func (d derivation) ops(metricOps func(scope int) []Op) []Op {
+	var ops []Op
+	cur := 0
+	if d.sub != "" {
+		ops = append(ops, Op{K: "sub", S: 0, D: 1, Name: d.sub})
+		cur = 1
+	}
+	if d.tags != nil {
+		ops = append(ops, Op{K: "tag", S: cur, D: 2, Tags: d.tags})
+		cur = 2
+	}
+	return append(ops, metricOps(cur)...)
 }
 
 // collidingIdentities returns the identities whose documented key is shared by a
